@@ -39,18 +39,6 @@ theorem Broken.not_nGood {s : St} {k : Key} {n : Node} (h : Broken s k) (hn : s.
   · rw [h] at hn; cases hn
   · exact not_nGood_of_broken hn' hm hnd hne
 
-/-- a projection that is not verified and has a callee with a pending backward projection is not `Solid` -/
-theorem not_solid_of_pending {s : St} {k : Key} {n : Node} (hn : s.nodes k = some n)
-    (hk : n.kind = .projection) (hnv : n.lastVerified ≠ s.epoch) {f : Key} {o : Val}
-    (hm : (f, o) ∈ n.deps) (hp : hasPending s f = true) : ¬ Solid s k := by
-  intro h
-  cases h with
-  | mk _ n' hn' _ hq _ _ =>
-    rw [hn] at hn'; cases hn'
-    rcases hq hk with h | h
-    · exact hnv h
-    · rw [h f o hm] at hp; cases hp
-
 theorem valueChanged_false {s : St} {k : Key} {v : Val} {n : Node} (hn : s.nodes k = some n)
     (hk : n.kind = .firewall ∨ n.kind = .projection) (h : valueChanged s k v = false) : v = n.value := by
   simp only [valueChanged, hn, Bool.and_eq_false_iff, decide_eq_false_iff_not] at h
